@@ -28,8 +28,18 @@ def scratch() -> Path:
     """Per-process scratch directory outside /repo, /verif and /tmp; removed at exit."""
     global _scratch
     if _scratch is None:
-        _scratch = Path(f"/var/tmp/pgverif-{os.getpid()}")
-        _scratch.mkdir(parents=True, exist_ok=True)
+        import tempfile
+        for base in ("/var/tmp", os.environ.get("TMPDIR") or "", tempfile.gettempdir()):
+            if not base:
+                continue
+            try:
+                _scratch = Path(base) / f"pgverif-{os.getpid()}"
+                _scratch.mkdir(parents=True, exist_ok=True)
+                break
+            except OSError:
+                _scratch = None
+        if _scratch is None:
+            raise MachineryError("no writable scratch directory")
         atexit.register(lambda: shutil.rmtree(_scratch, ignore_errors=True))
     return _scratch
 
